@@ -21,7 +21,10 @@ NSHARD = 48
 
 
 def bounds(tier):
-    return {'nodes': 5, 'schemas': schemas.QUICK_SCHEMAS if tier == 'quick' else schemas.ALL_SCHEMAS}
+    """node bound per schema"""
+    if tier == 'quick':
+        return {'nodes': 5, 'schema_nodes': {'flat': 5, 'arrays': 5, 'nested': 4, 'msgarrays': 4, 'kwnames': 4}}
+    return {'nodes': 5, 'schema_nodes': {s: 5 for s in schemas.ALL_SCHEMAS}}
 
 
 def grammar_for(schema_name):
@@ -76,8 +79,8 @@ def _alias_rooted(n):
 def plan(tier):
     b = bounds(tier)
     units = []
-    for sname in b['schemas']:
-        for n in range(1, b['nodes'] + 1):
+    for sname, nmax in b['schema_nodes'].items():
+        for n in range(1, nmax + 1):
             sh = 1 if n <= 3 else NSHARD
             units += [(tier, sname, n, k, sh) for k in range(sh)]
     units += [(tier, 'matrix', 0, k, 16) for k in range(16)]
@@ -264,8 +267,8 @@ def replay(w):
 def describe(tier):
     b = bounds(tier)
     return {
-        'rule': f"schemas {list(b['schemas'])} (flat primitives; variable/fixed arrays of each primitive; nested messages three levels; array of messages with constants; fixed arrays of length 0/1/3 and arrays of arrays; four-level nesting) x every Bool term with <= {b['nodes']} nodes generated type-directedly from the schema's valid paths (rooted at the message and at alias A), literals, + * ** = != < and implies not unary-minus abs len sum max bool int, sets, ranges, indexing, inclusion, both quantifiers (variables typed by their domain); each wrapped into 3-5 property positions; plus a schema whose field names begin with keywords (ERROR, INFO, PIN, notes, inner, ...); plus 7 type-generic predicates each parsed once and checked against number / boolean / string schemas in all 6 orders (histories of length 3); plus the signature matrix (every operator and every built-in function with every valid argument shape, used at its declared result type); parse, per-reference declared-type containment, and HplProperty.type_check_references against the real type tokens. A state = one (schema, predicate); transitions = parser / schema-check calls.",
-        'bounds': {'nodes': b['nodes'], 'schemas': len(b['schemas'])},
+        'rule': f"schemas and node bounds {b['schema_nodes']} (flat primitives; variable/fixed arrays of each primitive; nested messages three levels; array of messages with constants; fixed arrays of length 0/1/3 and arrays of arrays; four-level nesting) x every Bool term up to the schema's node bound generated type-directedly from the schema's valid paths (rooted at the message and at alias A), literals, + * ** = != < and implies not unary-minus abs len sum max bool int, sets, ranges, indexing, inclusion, both quantifiers (variables typed by their domain); each wrapped into 3-5 property positions; plus a schema whose field names begin with keywords (ERROR, INFO, PIN, notes, inner, ...); plus 7 type-generic predicates each parsed once and checked against number / boolean / string schemas in all 6 orders (histories of length 3); plus the signature matrix (every operator and every built-in function with every valid argument shape, used at its declared result type); parse, per-reference declared-type containment, and HplProperty.type_check_references against the real type tokens. A state = one (schema, predicate); transitions = parser / schema-check calls.",
+        'bounds': b,
         'exhaustive': True,
         'assumptions': ['type-directed generation by sort is the reference notion of well-typed'],
     }
